@@ -97,7 +97,11 @@ def numeric_grad(func, x, backend, eps=None):
     # Convert backend tensors to numpy for gradient computation
     if backend.is_backend_array(x):
         x = backend.to_numpy(x)
-    x = np.asarray(x, dtype=float_dtype)
+    # Always work on a private copy of the point: np.asarray would alias a
+    # float64 array (or a float64 tensor's buffer), so the in-place
+    # perturbation below would be left behind in the caller's variable
+    # whenever func raises or returns a non-scalar.
+    x = np.array(x, dtype=float_dtype)
 
     grad = np.zeros_like(x, dtype=float_dtype)
     it = np.nditer(x, flags=['multi_index'], op_flags=['readwrite'])
